@@ -23,9 +23,21 @@ MANIFEST = {
             "leaves queue, con_active and outputs exactly as with a lost datagram), w_run_tracks_m_partial / w_single_outcome_partial / "
             "w_attempts_on_schedule_partial (every event list, every pattern of failing RETRANSMISSION writes: same state as the base "
             "model, so conservation, schedule of the write attempts and give-up after MAX_RETRANSMIT+1 attempts carry over).  "
-            "m_refines_timer_partial: exact "
-            "simulation M -> S (same pending list, same observable outputs in order) when CONs are submitted with NSTART room and no "
-            "submission/RST races a due retransmission.  M is tied to the compiled code on every run by exact trace equality on a "
+            "m_refines_timer (round R06, FULL - EVERY event list of the C06 alphabet RunG: setNow / prepare / submit CON with or without "
+            "NSTART room / submit NON / rxAck / rxRst / rxBad / rxNon / connect at any instant): simulation M -> S with the delay queue in the invariant and the S events taken in the order the "
+            "code processes things (a drained Confirmable is S's `send` when it is really transmitted, one partial tick `tickN now 1` "
+            "per iteration of the due loop): same pending list as lists, same transmissions in the same order, same outcome NACKs in "
+            "the same order; lifted through it m_schedule_via_timer and m_single_outcome_via_timer (first transmissions = outcome "
+            "NACKs + ACK completions + queued); sim_order_witness (a re-used message id: the interleaving of one NACK with the "
+            "transmission it unblocks cannot be matched by any translation).  m_refines_timer_partial: the older exact "
+            "simulation (full observation list in order) when CONs are submitted with NSTART room and no "
+            "submission/RST races a due retransmission.  w_send_refused_nothing_queued / w_refused_send_leaves_no_trace / "
+            "w_run_with_refused_send_is_m_without_it / w_single_outcome_refused / w_attempts_on_schedule_refused (the branch the "
+            "w_*_partial theorems exclude: a coap_send whose first write fails returns COAP_INVALID_MID, queues nothing, and the "
+            "whole later run is the base model's run without that call).  obs_wait_le_every_deadline / "
+            "obs_io_wait_le_every_deadline FULL: every run of C11's Observe model keeps the send queue in deadline order with "
+            "nothing due after the I/O step (obs_queue_sorted_nothing_due, obs_io_nothing_due: retransmitDue's fuel length+1 "
+            "suffices).  M is tied to the compiled code on every run by exact trace equality on a "
             "virtual-time harness (transmissions with timestamps and byte identity, NACKs, con_active, the whole send queue after "
             "every event), incl. every drop subset of the first 10 datagrams and every lost / write-fails pattern of a message's "
             "attempts with a second message waiting for its NSTART slot.  Observation, not theorem (oracle on the implementation's "
@@ -40,8 +52,8 @@ MANIFEST = {
             "every state, every list of notifications coap_check_notify sends from INSIDE coap_io_prepare_io: the returned wait is "
             "computed after they were queued and does not exceed any pending deadline, theirs included); on C11's SERVER model "
             "(Model/Observe.lean + Model/ObserveWait.lean: the wait incl. the idle-session timers) "
-            "obs_wait_le_every_deadline_partial / obs_io_wait_le_every_deadline_partial (hypotheses: the queue the call leaves is in "
-            "deadline order with nothing due - invariants of that model not proved here); `obsw` lines run a REAL server context with "
+            "obs_wait_le_every_deadline / obs_io_wait_le_every_deadline (every run, no hypothesis; the `_partial` versions with the two "
+            "queue hypotheses are kept); `obsw` lines run a REAL server context with "
             "observable resources (harness/observe.c) and compare the value coap_io_prepare_epoll() returns at every io / adv event "
             "with that model exactly; observation (oracle on the implementation alone): that value is never 0 and never beyond the "
             "earliest deadline of the send queue as the call leaves it.",
@@ -49,9 +61,11 @@ MANIFEST = {
             "interpreter Driver/Msg.lean, generators/oracles, the hand transcription M (checked on the cases run only).  M-level theorems: "
             "sessions stay established (no hold/disconnect: session failure is C08's), no-wrap range D7, T > 0.  "
             "M has no PDU bytes: byte identity = constancy of the node fields standing for the PDU (Lean) + byte comparison of every "
-            "retransmitted datagram on the real code (T2).  The exact simulation is `_partial` because S's tick fires everything due "
-            "before anything else at an instant (same-instant ORDER differs for a delayed message let in by a give-up, or a submission / "
-            "RST racing a due retransmission); those runs are covered by the direct M-level theorems.  coap_adjust_basetime forward is an "
+            "retransmitted datagram on the real code (T2).  The simulation for every event list (m_refines_timer) compares the list of "
+            "transmissions and the list of outcome NACKs, each in order, not their interleaving (the code transmits a delayed message "
+            "BEFORE it calls the NACK handler of the message that released the slot); S got one more event for it, `tickN now k` (a "
+            "tick observed after k firings; all S-level theorems hold for it).  The older exact simulation (`_partial`, full observation "
+            "list) keeps its two scope conditions.  coap_adjust_basetime forward is an "
             "open finding (adjust_commutes_partial + adjust_forward_witness).  Write failures: the whole-run theorems are `_partial` "
             "because they exclude a failing write of a FIRST transmission (coap_send then refuses the message; the drain loop of "
             "coap_session_connected stops - open finding drain_break_strands_delayed, w_drain_break_strands_witness); those runs are "
@@ -73,10 +87,16 @@ REQUIRED_THEOREMS = ["queue_abs_invariant", "insert_commutes", "pop_commutes", "
                      "m_transmissions_exactly", "m_giveup_exactly_max", "m_wait_exact_and_positive",
                      "m_refines_timer_partial", "m_refines_timer_from_partial", "m_schedule_via_timer_partial",
                      "m_single_outcome_via_timer_partial",
+                     "m_refines_timer", "m_refines_timer_from", "m_schedule_via_timer", "m_single_outcome_via_timer",
+                     "sim_order_witness",
                      "m_delayed_has_pending", "w_failed_retransmission_is_lost_datagram", "w_run_tracks_m_partial",
                      "w_single_outcome_partial", "w_attempts_on_schedule_partial", "w_drain_break_strands_witness", "w_no_failure_is_m",
+                     "w_send_refused_nothing_queued", "w_refused_send_leaves_no_trace",
+                     "w_run_with_refused_send_is_m_without_it", "w_single_outcome_refused", "w_attempts_on_schedule_refused",
                      "ack_request_code_is_bad_ack", "m_solo_ack_request_code", "notify_wait_le_every_deadline",
-                     "obs_wait_le_every_deadline_partial", "obs_io_wait_le_every_deadline_partial"]
+                     "obs_wait_le_every_deadline_partial", "obs_io_wait_le_every_deadline_partial",
+                     "obs_wait_le_every_deadline", "obs_io_wait_le_every_deadline", "obs_io_wait_le_every_deadline_sorted",
+                     "obs_io_nothing_due", "obs_queue_sorted_nothing_due", "obs_queue_sorted_step"]
 RULE = ("scenario lines for harness/msg.c (one real client context, 1-3 UDP sessions sharing the send queue, virtual clock, "
         "scripted peer): every drop subset of the first 10 datagrams of an exchange (5 transmissions x 5 ACKs) for several "
         "parameter sets and ACK delays placed just before / at / after each timer deadline; random multi-message, "
@@ -106,7 +126,11 @@ ASSUMPTIONS = ["D7: ping_timeout = 0; transmission parameters where Q()'s uint16
                "M-level theorems (section 7): every event except hold/disconnect, on sessions that are established with an open "
                "socket, NSTART >= 1, nothing delayed initially; pdu_and_timeout_never_modified: no assumption",
                "w_*_partial: any socket writes of retransmissions may fail, no write of a first transmission does (ghost flag "
-               "`dev` of the write-failure model stays false)",
+               "`dev` of the write-failure model stays false); w_*_refused: exactly one first write fails, inside coap_send (the "
+               "drain-loop break is the open finding drain_break_strands_delayed)",
+               "m_refines_timer / m_schedule_via_timer / m_single_outcome_via_timer: events setNow (monotone), prepare, submit of a "
+               "Confirmable (T > 0, D7) or of a NON, rxAck, rxRst, rxBad, rxNon, connect (= RunG, every event but hold / disconnect) - any "
+               "order, any instant; sessions established (SessOk)",
                "UDP client sessions, block mode off, no OSCORE, unicast; real-time behaviour of epoll_wait is not modelled "
                "(the harness is the event loop)",
                "compiled Lean definitions agree with the kernel's reading of them"]
